@@ -42,7 +42,7 @@ package bayes
 //@ def acctText(a directives.Account) string := a.Range.Text[a.Range.Start:a.Range.End]
 //@ func (*Model).Infer
 //@   requires m != nil && t != nil && m.countByAccount != nil && (forall i int :: {t.Bookings[i].Range.Start} 0 <= i && i < len(t.Bookings) ==> prBooking(t.Bookings[i]))
-//@   modifies elems(t.Bookings)
+//@   modifies t.Bookings[*]
 //@   ensures [C15] @printable: forall i int :: {t.Bookings[i].Range.Start} 0 <= i && i < len(t.Bookings) ==> prBooking(t.Bookings[i])
 //@   ensures [C15] @only: forall i int :: {t.Bookings[i].Range.Start} 0 <= i && i < len(t.Bookings) ==>
 //@        t.Bookings[i].Range == old(t.Bookings[i].Range) && t.Bookings[i].Quantity == old(t.Bookings[i].Quantity) && t.Bookings[i].Commodity == old(t.Bookings[i].Commodity)
